@@ -171,7 +171,7 @@ theorem blank_chain (T : Table) (s : MState) (c0 : SChar) (tl : List SChar) (nam
   refine ⟨{ pre := (markLc (s.rest.take (skipLen s.rest))).reverse ++ s.pre,
             rest := spliceChars a c0 ++ tl.drop ((lexTok (c0 :: tl)).len - 1),
             st := (trans s.st (.word (some name) asg)).onSub,
-            implErr := s.implErr, subs := s.subs + 1, toks := s.toks }, ?_, rfl, rfl⟩
+            subs := s.subs + 1, toks := s.toks }, ?_, rfl, rfl⟩
   unfold step
   simp only [hdrop, hkind, hsub, hel]
 
